@@ -46,47 +46,76 @@ Fixpoint nodup_sorted (l : list N) : bool :=
 Definition started_of (o : x_obs) (h : N) : nat :=
   match find (fun p => N.eqb (fst p) h) (xo_started o) with Some p => snd p | None => 0%nat end.
 
-(* quiet: hashes whose current entry has a successful probe; est: their expected estimate;
-   failed: hashes whose current entry's last probe failed *)
-Fixpoint c20_walk (quiet : list (N * (Z * Z))) (failed : list N) (stale : list N) (ever_ok : list N) (prev : x_obs) (ops : list x_op) (seen : list x_obs) : bool :=
+(* monitor state: quiet = hashes whose current entry has a successful probe, with the expected estimate;
+   failed = hashes whose current entry's last probe failed (a retry is due); stale = probes in flight for entries
+   that left the table; ever_ok = hashes with some successful probe so far *)
+Record mon := { m_quiet : list (N * (Z * Z)); m_failed : list N; m_stale : list N; m_ever_ok : list N }.
+Definition mon0 : mon := {| m_quiet := []; m_failed := []; m_stale := []; m_ever_ok := [] |}.
+
+Definition mon_next (m : mon) (prev : x_obs) (op : x_op) : mon :=
+  match op with
+  | XGet _ | XTimers => m
+  | XUpdate jobs =>
+    let hs := flat_map snd jobs in
+    {| m_quiet := filter (fun q => existsb (N.eqb (fst q)) hs) (m_quiet m);
+       m_failed := filter (fun h => existsb (N.eqb h) hs) (m_failed m);
+       m_stale := filter (fun h => negb (existsb (N.eqb h) hs)) (xo_inflight prev) ++ m_stale m;
+       m_ever_ok := m_ever_ok m |}
+  | XApplyConfig _ =>       (* conservative: forget *)
+    {| m_quiet := []; m_failed := []; m_stale := xo_inflight prev ++ m_stale m; m_ever_ok := m_ever_ok m |}
+  | XDone h r =>
+    if existsb (N.eqb h) (m_stale m)
+    then {| m_quiet := m_quiet m; m_failed := m_failed m; m_stale := filter (fun x => negb (N.eqb x h)) (m_stale m);
+            m_ever_ok := match r with POk _ _ => h :: m_ever_ok m | PFail => m_ever_ok m end |}
+    else if Nat.eqb (length (filter (N.eqb h) (xo_inflight prev))) 1
+    then match r with
+         | POk s t => {| m_quiet := aset h (s, t) (m_quiet m); m_failed := filter (fun x => negb (N.eqb x h)) (m_failed m);
+                         m_stale := m_stale m; m_ever_ok := h :: m_ever_ok m |}
+         | PFail => {| m_quiet := m_quiet m;
+                       m_failed := if existsb (fun q => N.eqb (fst q) h) (m_quiet m) then m_failed m else h :: m_failed m;
+                       m_stale := m_stale m; m_ever_ok := m_ever_ok m |}
+         end
+    else m
+  end.
+
+(* at most one probe per target in flight *)
+Definition chk_single (cur : x_obs) : bool := nodup_sorted (xo_inflight cur).
+
+(* everything else the property says *)
+Definition chk_rest (workers : nat) (m : mon) (prev cur : x_obs) (op : x_op) : bool :=
+  (* after a success no further probes *)
+  forallb (fun q => Nat.eqb (started_of cur (fst q)) (started_of prev (fst q))) (m_quiet m) &&
+  match op with
+  | XGet h =>
+    (* the estimate handed to the coordinator *)
+    match xo_get cur, afind h (m_quiet m) with
+    | Some (Some (hl, s, t, e)), Some (es, et) => health_eqb hl Good && Z.eqb s es && Z.eqb t et && negb e
+    | Some None, Some _ => false
+    | _, _ => true
+    end &&
+    match xo_get cur with
+    | Some (Some (hl, s, t, e)) => (negb (existsb (N.eqb h) (m_failed m)) || (health_eqb hl Bad && e)) &&
+                                   (* healthy only after some successful probe of this hash *)
+                                   (existsb (N.eqb h) (m_ever_ok m) || negb (health_eqb hl Good))
+    | _ => true
+    end
+  | XTimers =>
+    (* a failed probe is retried after the retry interval: once the timers have fired, every tracked target whose last
+       probe failed is being probed again (or waits in the queue because every worker is busy) *)
+    forallb (fun h => existsb (N.eqb h) (xo_inflight cur) || Nat.ltb (started_of prev h) (started_of cur h) ||
+                      Nat.leb workers (length (xo_inflight cur))) (m_failed m)
+  | _ => true
+  end.
+
+Fixpoint c20_walk (single rest : bool) (workers : nat) (m : mon) (prev : x_obs) (ops : list x_op) (seen : list x_obs) : bool :=
   match ops, seen with
   | [], _ => true
   | op :: ops', cur :: seen' =>
-    (* at most one probe per target in flight *)
-    nodup_sorted (xo_inflight cur) &&
-    (* after a success no further probes *)
-    forallb (fun q => Nat.eqb (started_of cur (fst q)) (started_of prev (fst q))) quiet &&
-    match op with
-    | XGet h =>
-      (* the estimate handed to the coordinator *)
-      match xo_get cur, afind h quiet with
-      | Some (Some (hl, s, t, e)), Some (es, et) => health_eqb hl Good && Z.eqb s es && Z.eqb t et && negb e
-      | Some None, Some _ => false
-      | _, _ => true
-      end &&
-      match xo_get cur with
-      | Some (Some (hl, s, t, e)) => (negb (existsb (N.eqb h) failed) || (health_eqb hl Bad && e)) &&
-                                     (* healthy only after some successful probe of this hash *)
-                                     (existsb (N.eqb h) ever_ok || negb (health_eqb hl Good))
-      | _ => true
-      end && c20_walk quiet failed stale ever_ok cur ops' seen'
-    | XUpdate jobs =>
-      let hs := flat_map snd jobs in
-      (* probes in flight for a hash that leaves the table belong to an object nobody reads any more *)
-      c20_walk (filter (fun q => existsb (N.eqb (fst q)) hs) quiet) (filter (fun h => existsb (N.eqb h) hs) failed)
-               (filter (fun h => negb (existsb (N.eqb h) hs)) (xo_inflight prev) ++ stale) ever_ok cur ops' seen'
-    | XApplyConfig _ => c20_walk [] [] (xo_inflight prev ++ stale) ever_ok cur ops' seen'      (* conservative: forget *)
-    | XDone h r =>
-      if existsb (N.eqb h) stale then c20_walk quiet failed (filter (fun x => negb (N.eqb x h)) stale) (match r with POk _ _ => h :: ever_ok | PFail => ever_ok end) cur ops' seen'
-      else if Nat.eqb (length (filter (N.eqb h) (xo_inflight prev))) 1
-      then match r with
-           | POk s t => c20_walk (aset h (s, t) quiet) (filter (fun x => negb (N.eqb x h)) failed) stale (h :: ever_ok) cur ops' seen'
-           | PFail => c20_walk quiet (if existsb (fun q => N.eqb (fst q) h) quiet then failed else h :: failed) stale ever_ok cur ops' seen'
-           end
-      else c20_walk quiet failed stale ever_ok cur ops' seen'
-    | XTimers => c20_walk quiet failed stale ever_ok cur ops' seen'
-    end
+    (negb single || chk_single cur) && (negb rest || chk_rest workers m prev cur op) &&
+    c20_walk single rest workers (mon_next m prev op) cur ops' seen'
   | _ :: _, [] => false
   end.
-Definition c20_case (c : x_case) : bool :=
-  c20_walk [] [] [] [] {| xo_inflight := []; xo_started := []; xo_get := None |} (xc_ops c) (xc_seen c).
+Definition obs0 : x_obs := {| xo_inflight := []; xo_started := []; xo_get := None |}.
+Definition c20_case (c : x_case) : bool := c20_walk true true (xc_workers c) mon0 obs0 (xc_ops c) (xc_seen c).
+(* the part the known finding (two probes of a re-added target) does not touch: used to tell a different violation apart *)
+Definition c20_rest_case (c : x_case) : bool := c20_walk false true (xc_workers c) mon0 obs0 (xc_ops c) (xc_seen c).
